@@ -988,10 +988,14 @@ fn main() {
         start_watchdog("C03", std::time::Duration::from_secs(std::env::var("VERIF_WATCHDOG_SECS").ok().and_then(|v| v.parse().ok()).unwrap_or(if quick { 240 } else { 1500 })), ctx.seed);
     }
     let n = ctx.scale(64, 900) as u64;
+    let t0 = std::time::Instant::now();
     let mut rep = run_cases(&ctx, "main", n, |case, rng, rep| run_case(case, rng, rep, quick));
+    rep.count("wall_ms_stream_main", t0.elapsed().as_millis() as u64);
+    let t0 = std::time::Instant::now();
     // the ExistsQuery family on its own schema (every fast field kind, JSON sub-paths)
     let nx = ctx.scale(160, 1600) as u64;
     rep.merge(run_cases(&ctx, "exists", nx, |case, rng, rep| c03_util::run_case(case, rng, rep, quick)));
+    rep.count("wall_ms_stream_exists", t0.elapsed().as_millis() as u64);
     simple_finish(
         &ctx,
         rep,
